@@ -19,6 +19,7 @@ pub mod c21;
 pub mod c22;
 pub mod c27;
 pub mod c28;
+pub mod c31;
 pub mod c32;
 pub mod c34;
 pub mod insp;
@@ -62,6 +63,7 @@ pub fn dispatch(ctx: &Ctx, replay: Option<&str>) -> i32 {
         "C28" => c28,
         "C29" => c29,
         "C30" => c30,
+        "C31" => c31,
         "C32" => c32,
         "C34" => c34,
     )
